@@ -1,6 +1,7 @@
 package project
 
 import (
+	"cosmossdk.io/collections"
 	"crypto/sha256"
 	"encoding/hex"
 	"fmt"
@@ -46,6 +47,33 @@ func QueryAnswers(c *sim.Chain, withdrawalIDs []uint64, evmAddrs []string) map[s
 		for v := uint32(0); v < 2; v++ {
 			r, e := bq.DepositAddress(ctx, &bitcointypes.QueryDepositAddress{Version: v, EvmAddress: a})
 			put(fmt.Sprintf("bitcoin/DepositAddress/%s/%d", a[:8], v), r, e)
+		}
+	}
+	// HasDeposited: every credited outpoint (asked the way a client asks: the transaction id in display order) is reported as
+	// deposited, the neighbouring output index is not (unless it was credited too)
+	credited := map[string]bool{}
+	var outs [][2]interface{}
+	_ = c.App.BitcoinKeeper.Deposited.Walk(ctx, nil, func(key collections.Pair[[]byte, uint32], _ uint64) (bool, error) {
+		credited[fmt.Sprintf("%x/%d", key.K1(), key.K2())] = true
+		outs = append(outs, [2]interface{}{append([]byte{}, key.K1()...), key.K2()})
+		return false, nil
+	})
+	for _, o := range outs {
+		txid, vout := o[0].([]byte), o[1].(uint32)
+		if len(txid) != 32 {
+			continue
+		}
+		rev := make([]byte, 32)
+		for i := range txid {
+			rev[31-i] = txid[i]
+		}
+		for _, vo := range []uint32{vout, vout + 1} {
+			r, e := bq.HasDeposited(ctx, &bitcointypes.QueryHasDeposited{Txid: hex.EncodeToString(rev), Txout: vo})
+			if e == nil && r.Yes != credited[fmt.Sprintf("%x/%d", txid, vo)] {
+				out[fmt.Sprintf("bitcoin/HasDeposited/%x/%d", txid[:6], vo)] = fmt.Sprintf("WRONG:%v", r.Yes)
+				continue
+			}
+			put(fmt.Sprintf("bitcoin/HasDeposited/%x/%d", txid[:6], vo), r, e)
 		}
 	}
 	rq := relayerkeeper.NewQueryServerImpl(c.App.RelayerKeeper)
